@@ -233,7 +233,53 @@ def loop_system(prog, body, lm, state_pks, roots):
         for pk in state_pks:
             nxt[pk] = inner.value_at_end(pk)
         out.append(Transition(kind, path, facts, events, nxt, inner))
-    return out
+    return _rotate_flag_loop(prog, body, lm, out)
+
+
+def _rotate_flag_loop(prog, body, lm, trans):
+    """`let mut done = false; while !done { ..; done = E; }` is `loop { ..; if E { break } }`: when the loop is
+    controlled by a boolean that is constant on entry and re-computed by every pass, move the test to the end of the
+    pass - each pass splits into a continuing and a leaving transition under E - so that rules see the condition E
+    instead of an opaque flag."""
+    from .pred import bool_facts
+    s = sym_of(body)
+    flags = loop_state_vars(body, lm, types=("bool",))
+    for pk in flags:
+        phi = s.val_entry(pk, lm.header)
+        init = entry_value(prog, body, lm, pk)
+        if init is None or init[0] != "bool":
+            continue
+        backs = [t for t in trans if t.kind == "back"]
+        exits = [t for t in trans if t.kind == "exit"]
+        if not backs:
+            continue
+        stay = {pol for t in backs for a, pol in t.facts if a == ("b", phi)}
+        if len(stay) != 1:
+            continue
+        stay = next(iter(stay))
+        if init[1] != stay:
+            continue          # the loop may be skipped altogether: not this shape
+        if not all(any(a == ("b", phi) and pol == stay for a, pol in t.facts) for t in backs):
+            continue
+        flag_exits = [t for t in exits if any(a == ("b", phi) and pol != stay for a, pol in t.facts)
+                      and not t.events and all(a == ("b", phi) for a, _p in t.facts)]
+        if len(flag_exits) != len(exits) or not flag_exits:
+            continue          # other ways out: leave the system as it is
+        new = []
+        for t in backs:
+            e = prog.simp(s.val(pk, t.path[-2], "after"), body) if len(t.path) >= 2 else None
+            e = prog.simp(t.view.resolve(s.val(pk, t.path[-2], "after")), body) if e is not None else None
+            if e is None:
+                return trans
+            base = [f for f in t.facts if f[0] != ("b", phi)]
+            cont = base + bool_facts(e, stay)
+            leave = base + bool_facts(e, not stay)
+            if not contradictory(cont):
+                new.append(Transition("back", t.path, cont, t.events, t.next, t.view))
+            if not contradictory(leave):
+                new.append(Transition("exit", t.path, leave, t.events, t.next, t.view))
+        return new
+    return trans
 
 
 def loop_state_vars(body, lm, types=("usize", "f64", "bool")):
